@@ -482,7 +482,8 @@ def sdss_specobjid(plate, fiber, mjd, run2d, line=None, index=None):
     if isinstance(fiber, int):
         fiber = np.array([fiber])
     if isinstance(mjd, int):
-        mjd = np.array([mjd]) - 50000
+        mjd = np.array([mjd])
+    mjd = mjd - 50000
     if isinstance(run2d, str):
         try:
             run2d = np.array([int(run2d)])
